@@ -241,6 +241,7 @@ func checkGeneratedJoinShape(c *Ctx) {
 			c.fail(rule, name+"/success-path", pos, "no path returning (result, nil)")
 			continue
 		}
+		c.ok(rule, name+"/no-Refilter-on-construction-path", pos, "refilters only from monitor callbacks")
 		// result is dstController.CloneForFilter()
 		r := okPath.End.Results[0]
 		isClone := r.K == "extract" && r.S == "0" && r.A[0].K == "invoke" && r.A[0].S == "CloneForFilter" && isParamT(r.A[0].A[0], dstP)
@@ -257,6 +258,10 @@ func checkGeneratedJoinShape(c *Ctx) {
 			}
 			if e.Kind == "invoke" && e.Method == "Refilter" {
 				c.fail(rule, name+"/no-Refilter-on-construction-path", c.P.instrPos(e.In), name+" refilters on its straight-line construction path: the join could become ready before its source is")
+			}
+			// … nor by calling one of its own handler closures directly
+			if (e.Kind == "call" || e.Kind == "dyncall") && e.Fn != nil && e.Fn.Parent() == fn && closureRefilters(e.Fn) {
+				c.fail(rule, name+"/no-Refilter-on-construction-path", c.P.instrPos(e.In), name+" invokes its refiltering handler "+fnName(e.Fn)+" on its straight-line construction path (not from a monitor callback): a filter computed from a source that is not ready yet makes the join ready over the wrong content")
 			}
 		}
 		for _, s := range []string{"OnInitialize", "OnCreate", "OnUpdate", "OnDelete"} {
@@ -390,4 +395,21 @@ func checkGeneratedJoinShape(c *Ctx) {
 		c.check(ok, rule, fnName(fn)+"/delegates-with-source-package-filter", c.P.fnPos(fn), "", fnName(fn)+" does not delegate to "+fn.Name()+"With with its own arguments and the selection filter of the source's package")
 	}
 	c.check(wr >= 8, rule, "join/wrappers", "-", fmt.Sprintf("%d wrappers", wr), "fewer than the 8 join wrappers found")
+}
+
+// closureRefilters: the closure (or a closure it calls) invokes Refilter.
+func closureRefilters(f *ssa.Function) bool {
+	for _, b := range f.Blocks {
+		for _, in := range b.Instrs {
+			if cc, _ := callCommonOf(in); cc != nil {
+				if methodName(cc) == "Refilter" {
+					return true
+				}
+				if g := cc.StaticCallee(); g != nil && g.Parent() != nil && g != f && closureRefilters(g) {
+					return true
+				}
+			}
+		}
+	}
+	return false
 }
